@@ -10,7 +10,8 @@
 From Coq Require Import List Bool.
 From DV Require Import Base.QcInst Model.TransformState Model.TransformStateRun Model.TransformStateEx
   Gen.TState Model.TransformCfg
-  Proofs.C09Fresh Proofs.C09Replace Proofs.C09Regrid Proofs.C09Refuted Proofs.C09Skeleton.
+  Proofs.C09Fresh Proofs.C09Replace Proofs.C09Regrid Proofs.C09Refuted Proofs.C09Skeleton
+  Proofs.C09Wf Proofs.C09Seq Proofs.C09History.
 Import ListNotations.
 
 (* 0. the state-affecting statements of the anchored methods are the ones the model was written for *)
@@ -91,6 +92,53 @@ Proof.
 Qed.
 Print Assumptions C09_regrid_preserves_world.
 
+(* 5. Every state reachable by ANY operation history from the empty heap is well-formed: every tensor
+      reference stored in a params slot, a shared _parameters dict, a buffer p or an aliasing u / v
+      points into the tensor store, and `params` never sits in both the instance __dict__ and the
+      _buffers dict (induction over the history; holds for every configuration). *)
+Theorem C09_reachable_states_wellformed :
+  forall (P G C : Type) p0 emptyP zeroP fillP regrid callP fits geq same_dom spline_ok ffd_sub (cf : cfg)
+         (h : list (op P G C)),
+  wf (run P G C p0 emptyP zeroP fillP regrid callP fits geq same_dom spline_ok ffd_sub cf (empty_state P G C) h).
+Proof. exact (fun P G C => @reachable_wf P G C). Qed.
+Print Assumptions C09_reachable_states_wellformed.
+
+(* 6. Composite calls: after any history, a call of a SequentialTransform whose members are plain
+      parametric transforms (tensor / Parameter / callable parameters; not composites, not links)
+      returns, member by member in order, exactly what each member held when the call started.
+      (Linked members read the linked transform's buffered parameters by design; they are covered by the
+      correspondence and the search only.) *)
+Theorem C09_composite_call_is_fresh_after_any_history :
+  forall (P G C : Type) p0 emptyP zeroP fillP regrid callP fits geq same_dom spline_ok ffd_sub
+         (h : list (op P G C)) (o : nat) ob (l : list (tag P G)),
+  let s := run P G C p0 emptyP zeroP fillP regrid callP fits geq same_dom spline_ok ffd_sub gen_cfg (empty_state P G C) h in
+  get_obj P G C s o = Some ob -> o_kind P G C ob = KSeq ->
+  Forall (plain s) (o_members P G C ob) ->
+  snd (step P G C p0 emptyP zeroP fillP regrid callP fits geq same_dom spline_ok ffd_sub gen_cfg s (Call P G C o)) = Out P G l None ->
+  Forall2 (fun t m => held P G C p0 callP s m = Some t) l (o_members P G C ob).
+Proof.
+  exact (fun P G C p0 emptyP zeroP fillP regrid callP fits geq same_dom spline_ok ffd_sub =>
+           seq_call_history p0 emptyP zeroP fillP regrid callP fits geq same_dom spline_ok ffd_sub gen_cfg gen_cfg_all).
+Qed.
+Print Assumptions C09_composite_call_is_fresh_after_any_history.
+
+(* 7. Theorem 4 after any history: the well-formedness hypothesis is discharged by 5 *)
+Theorem C09_regrid_preserves_world_after_any_history :
+  forall (P G C : Type) p0 emptyP zeroP fillP regrid callP fits geq same_dom spline_ok ffd_sub,
+  (forall a b, geq a b = true -> a = b) ->
+  forall (W : Type) (world : P -> G -> W) (h : list (op P G C)) o g s1 ob r ip,
+  let s := run P G C p0 emptyP zeroP fillP regrid callP fits geq same_dom spline_ok ffd_sub gen_cfg (empty_state P G C) h in
+  (forall k p a b, world (regrid k p a b) b = world p a) ->
+  get_obj P G C s o = Some ob -> is_dense (o_kind P G C ob) = true ->
+  get_params P G C s ob = Some (VTen r ip) ->
+  grid_set P G C p0 regrid fits geq spline_ok ffd_sub gen_cfg s o g = Ok tt s1 ->
+  exists p', holds p0 s1 o p' g /\ world p' g = world (tval P G C p0 s r) (o_grid P G C ob).
+Proof.
+  exact (fun P G C p0 emptyP zeroP fillP regrid callP fits geq same_dom spline_ok ffd_sub =>
+           regrid_history p0 emptyP zeroP fillP regrid callP fits geq same_dom spline_ok ffd_sub gen_cfg gen_cfg_all).
+Qed.
+Print Assumptions C09_regrid_preserves_world_after_any_history.
+
 (* non-vacuity: the hypotheses of 1, 2 and 4 are met by concrete reachable states of the executable
    instance, and the conclusions are observed there (including the two repaired cases: a B-spline model
    with callable parameters after grid_, a dense model moved to a grid differing only in align_corners) *)
@@ -98,8 +146,9 @@ Example C09_nonvacuous :
   fresh_after gen_cfg h_svf_fun x_cond x_obs 0 = true /\
   fresh_after gen_cfg h_disp_ten x_data (Disp PV nat CV 0) 0 = true /\
   fresh_after gen_cfg h_ffd_fun (GridSet PV nat CV 0 2) x_obs 0 = true /\
-  world_kept gen_cfg h_disp_ten 0 2 = true /\ world_kept gen_cfg h_disp_ten 0 1 = true.
+  world_kept gen_cfg h_disp_ten 0 2 = true /\ world_kept gen_cfg h_disp_ten 0 1 = true /\
+  seq_fresh_after gen_cfg h_seq 2 = true.
 Proof.
   exact (conj nonrigid_callable_fresh_after_condition (conj dense_fresh_after_data (conj spline_callable_fresh_after_grid
-          (conj dense_grid_other_lattice_keeps_world dense_grid_align_only_keeps_world)))).
+          (conj dense_grid_other_lattice_keeps_world (conj dense_grid_align_only_keeps_world composite_call_fresh_witness))))).
 Qed.
